@@ -14,13 +14,21 @@ typedef struct { int t; unsigned rs; long popped_n; unsigned long long *popped; 
 static unsigned rnd(unsigned *s) { *s = *s * 1103515245u + 12345u; return (*s >> 16) & 0x7fff; }
 static unsigned long long mk(int t, int j) { return ((unsigned long long)(t + 1) << 32) | (unsigned)(j + 1); }
 
+/* one key shared by all threads: every put stores 64 identical bytes, so a torn or freed copy is recognisable */
+static void hot_check(const unsigned char *v, size_t sz, int t, int j) {
+    if (!v) return;
+    if (sz != 64) { fail("hot value size", t, (long)sz); return; }
+    for (size_t i = 1; i < sz; i++) if (v[i] != v[0]) { fail("hot value torn", t, j); return; }
+}
 static void *worker(void *p) {
     targ *a = p; int t = a->t; unsigned rs = a->rs;
     for (int j = 0; j < K && !failed; j++) {
         unsigned long long e = mk(t, j); char key[32]; snprintf(key, sizeof key, "k%d_%d", t, j);
         if (rnd(&rs) % 4 == 0) sched_yield();
+        unsigned char hot[64]; memset(hot, (t * 37 + j) & 0xff, sizeof hot);
         if (!strcmp(kind, "tree")) {
             qtreetbl_t *c = cont;
+            if (j % 4 == 0) { c->put(c, "hot", hot, sizeof hot); size_t hs = 0; unsigned char *hv = c->get(c, "hot", &hs, true); hot_check(hv, hs, t, j); free(hv); }
             if (!c->put(c, key, &e, sizeof e)) fail("put failed", t, j);
             if (j > 0) { int q = rnd(&rs) % j; char k2[32]; snprintf(k2, sizeof k2, "k%d_%d", t, q); size_t sz = 0;
                 unsigned long long *v = c->get(c, k2, &sz, true);
@@ -34,6 +42,7 @@ static void *worker(void *p) {
                 c->unlock(c); }
         } else if (!strcmp(kind, "hash")) {
             qhashtbl_t *c = cont;
+            if (j % 4 == 0) { c->put(c, "hot", hot, sizeof hot); size_t hs = 0; unsigned char *hv = c->get(c, "hot", &hs, true); hot_check(hv, hs, t, j); free(hv); }
             if (!c->put(c, key, &e, sizeof e)) fail("put failed", t, j);
             if (j > 0) { int q = rnd(&rs) % j; char k2[32]; snprintf(k2, sizeof k2, "k%d_%d", t, q); size_t sz = 0;
                 unsigned long long *v = c->get(c, k2, &sz, true);
@@ -43,6 +52,8 @@ static void *worker(void *p) {
             if (j % 3 == 1) { if (!c->remove(c, key)) fail("remove failed", t, j); }
         } else if (!strcmp(kind, "listtbl")) {
             qlisttbl_t *c = cont;
+            if (j % 4 == 0) { c->put(c, "hot", hot, sizeof hot); size_t hs = 0; unsigned char *hv = c->get(c, "hot", &hs, true);
+                if (!hv) fail("hot key missing although it is never removed", t, j); hot_check(hv, hs, t, j); free(hv); }
             if (!c->put(c, key, &e, sizeof e)) fail("put failed", t, j);
             if (j > 0) { int q = rnd(&rs) % j; char k2[32]; snprintf(k2, sizeof k2, "k%d_%d", t, q); size_t sz = 0;
                 unsigned long long *v = c->get(c, k2, &sz, true);
@@ -75,11 +86,33 @@ static void *worker(void *p) {
 }
 static int cmpull(const void *a, const void *b) { unsigned long long x = *(const unsigned long long *)a, y = *(const unsigned long long *)b; return x < y ? -1 : x > y; }
 
+/* "contend": one thread keeps the container locked for longer than the waiter's retry limit (the waiter then runs the
+   "force unlock" branch of Q_MUTEX_ENTER), releases it, and afterwards both the waiter's operation and a third thread's
+   operation must complete: an operation that returned must have released the lock. */
+static qhashtbl_t *ctbl; static volatile int b_done, c_done;
+static void *contend_b(void *p) { ctbl->putstr(ctbl, "b", "1"); b_done = 1; return NULL; }
+static void *contend_c(void *p) { char *v = ctbl->getstr(ctbl, "a", true); free(v); c_done = 1; return NULL; }
+static int contend(void) {
+    ctbl = qhashtbl(0, QHASHTBL_THREADSAFE); ctbl->putstr(ctbl, "a", "0");
+    pthread_t b, c;
+    ctbl->lock(ctbl);
+    pthread_create(&b, NULL, contend_b, NULL);
+    struct timespec ts = {2, 500000000}; nanosleep(&ts, NULL);      /* > 5000 trylock attempts with usleep(1) in between */
+    ctbl->unlock(ctbl);
+    for (int i = 0; i < 100 && !b_done; i++) { struct timespec t = {0, 100000000}; nanosleep(&t, NULL); }
+    if (!b_done) { printf("FAIL waiter still blocked 10 s after the lock holder returned\n"); return 1; }
+    pthread_create(&c, NULL, contend_c, NULL);
+    for (int i = 0; i < 50 && !c_done; i++) { struct timespec t = {0, 100000000}; nanosleep(&t, NULL); }
+    if (!c_done) { printf("FAIL a later operation of another thread never completes: some call returned with the lock held\n"); return 1; }
+    printf("OK contend\n"); return 0;
+}
+
 int main(int argc, char **argv) {
+    if (argc > 1 && !strcmp(argv[1], "contend")) return contend();
     kind = argv[1]; T = atoi(argv[2]); K = atoi(argv[3]); seed0 = (unsigned)atoi(argv[4]);
     if (!strcmp(kind, "tree")) cont = qtreetbl(QTREETBL_THREADSAFE);
     else if (!strcmp(kind, "hash")) cont = qhashtbl(7, QHASHTBL_THREADSAFE);
-    else if (!strcmp(kind, "listtbl")) cont = qlisttbl(QLISTTBL_THREADSAFE);
+    else if (!strcmp(kind, "listtbl")) cont = qlisttbl(QLISTTBL_THREADSAFE | QLISTTBL_UNIQUE);
     else if (!strcmp(kind, "list")) cont = qlist(QLIST_THREADSAFE);
     else cont = qvector(2, sizeof(unsigned long long), QVECTOR_THREADSAFE | QVECTOR_RESIZE_DOUBLE);
     pthread_t th[16]; targ a[16];
@@ -99,7 +132,8 @@ int main(int argc, char **argv) {
             free(v);
         }
         got = !strcmp(kind, "tree") ? (long)((qtreetbl_t *)cont)->size(cont) : !strcmp(kind, "hash") ? (long)((qhashtbl_t *)cont)->size(cont) : (long)((qlisttbl_t *)cont)->size(cont);
-        if (got != expect) { printf("FAIL size %ld expected %ld\n", got, expect); return 1; }
+        expect += 1;   /* the hot key: put by every thread, never removed, unique */
+        if (got != expect) { printf("FAIL size %ld expected %ld (a replacing put was not atomic, or an update was lost)\n", got, expect); return 1; }
         if (!strcmp(kind, "tree") && qtreetbl_check(cont) != 0) { printf("FAIL tree invariant %d\n", qtreetbl_check(cont)); return 1; }
     } else {
         size_t total = (size_t)T * K; unsigned long long *all = calloc(total + 1, sizeof *all); size_t n = 0;
